@@ -3,14 +3,86 @@
 Areas (harness go/cmd/c03, all sixteen configurations D1..D16 instantiated at compile time):
   fx       operations whose exact intermediates and result are representable (the hypotheses of the theorems hold;
            classified in the generator with math/big): implementation vs model, line by line
-  fxwrap   operations that overflow somewhere, or divide by zero: wrap-around / panic behaviour, model vs implementation
+  fxwrap   operations that overflow somewhere, or divide by zero: wrap-around / panic behaviour, model vs implementation;
+           outside the hypotheses of the property, so a difference is recorded as model drift, not as a violation
+  fxcfg    Places()/Multiplier() of every configuration against k / 10^k computed by the harness (oracle)
   fxfloatm float paths of From / As (float64 and float32 kinds): implementation vs the Lean model
            (Model/FixedFloat.lean on the binary64 model GoSem.F64), raw for raw and bit for bit
   fxfloat  float paths of From / As: implementation-side oracle against exact big.Rat arithmetic (the literal bound of
            the property, end to end, independent of the model)
 """
 
-OVERLAY = {"xmath/fixed/f128/verif_c03.go": "c03_f128_raw.go"}
+OVERLAY = {"xmath/fixed/f128/verif_c03.go": "c03_f128_raw.go", "xmath/num/verif_c03.go": "c03_num_words.go"}
+CONST_OPS = ("mult", "places", "maxsafe", "maximum", "minimum", "fjsonbad")
+
+
+def _float_outside(line):
+    """A From-float line whose exact result the fixed-point type cannot represent (NaN, +-Inf, |x|*10^k beyond the raw
+    range): the property constrains nothing there (f128 panics / returns 0 / saturates today)."""
+    import struct
+    from fractions import Fraction
+    w = line.split(" ")
+    if len(w) != 4 or not w[2].startswith("from"):
+        return False
+    try:
+        bits = int(w[3], 16)
+        x = struct.unpack(">f", struct.pack(">I", bits))[0] if "f32" in w[2] else struct.unpack(">d", struct.pack(">Q", bits))[0]
+        if x != x or x in (float("inf"), float("-inf")):
+            return True
+        lim = 2 ** (63 if w[0] == "f64" else 127)
+        return abs(Fraction(x)) * 10 ** int(w[1]) >= lim
+    except (ValueError, struct.error):
+        return False
+
+
+def _demote(ctx, n0, prefix, pred, key):
+    """Moves the correspondence mismatches reported since index n0 that concern inputs OUTSIDE the hypotheses of the
+    property from the violations to the evidence (model drift) and prints them as notes."""
+    def line_of(v):
+        w = v.get("what", "")
+        return w[w.rfind(" on `") + 5:-1] if " on `" in w else ""
+    drift = [v for v in ctx.violations[n0:] if v.get("kind") == "correspondence" and v.get("what", "").startswith(prefix)
+             and pred(line_of(v))]
+    ctx.violations[n0:] = [v for v in ctx.violations[n0:] if v not in drift]
+    ctx.extra[key] = [v["what"] for v in drift]
+    for v in drift:
+        print("NOTE (not a violation of C03: outside its hypotheses) behaviour differs from the model: " + v["what"])
+
+
+def _agreement(ctx, n):
+    """Direct check of the clause `f64 and f128 produce identical results wherever both can represent the operands and
+    the result`, on the implementation's own outputs (no model involved): the generator of area fx emits the same
+    64-bit operands for both types; the two answers must be the same text."""
+    if "harness" not in ctx.harness_bin or ctx.replay:
+        return
+    lines = ctx.gen("fx", ctx.seed * 104729 + 5, n)
+    outs = ctx.run_impl("fx", lines, timeout=120)
+    if outs is None:
+        return
+    seen = {}
+    pairs = bad = 0
+    for l, o in zip(lines, outs):
+        ty, rest = l.split(" ", 1)
+        if rest.split(" ")[1] in ("maximum", "minimum"):
+            continue
+        if o.startswith(("crash", "skipped-after-crash", "hang")):
+            continue  # reported by the correspondence stream; not a disagreement of the two types
+        if rest in seen and seen[rest][0] != ty:
+            pairs += 1
+            if seen[rest][1] != o and bad < 2:
+                bad += 1
+                ops = [seen[rest][0] + " " + rest, l]
+                rep = {"property": ctx.id, "kind": "impl-oracle", "area": "fx", "harness": "harness", "ops": ops,
+                       "impl_outputs": [seen[rest][1], o], "concrete_failing_input": True,
+                       "note": "f64 and f128 disagree although operands, intermediates and result fit 64 bits "
+                               "(contradicts C03.f64_f128_agree)"}
+                ctx.violations.append({"kind": "impl-oracle", "concrete": True, "replay": ctx._write_replay(rep),
+                                       "what": "f64/f128 disagree on `%s`: %s vs %s" % (rest, seen[rest][1], o)})
+        else:
+            seen[rest] = (ty, o)
+    ctx.extra["f64_f128_twin_pairs"] = pairs
+    ctx.rules.append("twin agreement: %d operand tuples of area fx executed on both f64 and f128, outputs compared "
+                     "directly (implementation only)" % pairs)
 
 
 def _tag(line, out):
@@ -26,8 +98,8 @@ def _tag(line, out):
 def run(ctx):
     ctx.modelled += [
         "modelled API: f64.Int[T] Add Sub Mul Div Mod Abs Trunc Ceil Round Min Max Inc Dec, built-in comparisons, "
-        "From/As (11 integer kinds, float32, float64), Multiplier, MaxDecimalDigits, MaxSafeMultiply, "
-        "Fraction.Normalize/Value; "
+        "From/As (11 integer kinds, float32, float64), Multiplier, MaxDecimalDigits, MaxSafeMultiply, the constants "
+        "Max/Min, Fraction: NewFraction Normalize Value String StringWithSign MarshalJSON UnmarshalJSON; "
         "f128.Int[T] the same plus Neg Cmp Equal LessThan LessThanOrEqual GreaterThan GreaterThanOrEqual Maximum "
         "Minimum; all 16 configurations, multiplier taken from the regenerated Facts.fixedConfigs",
         "num.Uint128.Div is taken by its contract (floor division of the magnitudes, panic on zero); the 128-bit "
@@ -59,14 +131,26 @@ def run(ctx):
            "f64_from_int_exact / f64_as_int_exact (and the f128_ twins), f64_f128_agree, mul_rational … : the model "
            "equals exact decimal arithmetic truncated toward zero under the representability hypotheses, which hold "
            "for every line of this stream; impl != model on this input")
+    tmo = 120 if ctx.tier == "quick" else 900
+    ctx.impl_oracle("fxcfg", 32, label="Places()/Multiplier() of D1..D16 through f64 and f128 against k and 10^k "
+                                       "computed by the harness", timeout=tmo)
     ctx.diff(area="fx", driver="drv_c03", n={"quick": 400000, "thorough": 10000000},
-             trivial=lambda l, o: l.split(" ")[2] in ("mult", "places", "maxsafe", "maximum", "minimum"),
-             tagger=_tag, theorem=thm)
+             trivial=lambda l, o: l.split(" ")[2] in CONST_OPS,
+             tagger=_tag, theorem=thm, timeout=tmo)
+    _agreement(ctx, 150000 if ctx.tier == "quick" else 2000000)
+    # Overflow stream.  The property constrains nothing here (its hypotheses exclude unrepresentable intermediates and
+    # results, and it is silent about division by zero), so a difference between the code and the model of its
+    # wrap-around behaviour is NOT a violation of C03: it is recorded in the evidence as model drift and printed, and
+    # the model should then be re-transcribed.  (Hardening class 9: no alarm on what the property does not constrain.)
+    n0 = len(ctx.violations)
     ctx.diff(area="fxwrap", driver="drv_c03", n={"quick": 200000, "thorough": 5000000},
              tagger=lambda l, o: "wrap." + (_tag(l, o) or "?"),
              theorem="wrap-around / panic behaviour: the model transcribes Go's int64 and num.Int128 overflow "
                      "semantics; impl != model on this input",
-             what="overflow stream: outside the representability hypotheses of the property; model-vs-code only")
+             what="overflow stream: outside the representability hypotheses of the property; model-vs-code only",
+             timeout=tmo)
+    _demote(ctx, n0, "fxwrap:", lambda l: True, "overflow_stream_model_drift")
+    n0 = len(ctx.violations)
     ctx.diff(area="fxfloatm", driver="drv_c03", n={"quick": 120000, "thorough": 3000000},
              tagger=lambda l, o: "float." + (_tag(l, o) or "?"),
              theorem="C03.f64_from_float_bound / f64_as_float_bound / f128_from_float_bound / f128_as_float_bound: the "
@@ -75,6 +159,9 @@ def run(ctx):
                      "within max(one unit of the last place, 2^-52 relative) of the exact value on its domain; "
                      "impl != model on this input",
              what="float paths of From/As inside the domain on which Go defines them (f64.From: truncated product "
-                  "within int64, no NaN/Inf)")
+                  "within int64, no NaN/Inf)", timeout=tmo)
+    # f128.From on NaN / +-Inf / values beyond the raw range (panic, 0, saturation today) is outside the property too
+    _demote(ctx, n0, "fxfloatm:", _float_outside, "float_outside_domain_model_drift")
     ctx.impl_oracle("fxfloat", {"quick": 60000, "thorough": 2000000},
-                    label="float From/As within max(1 unit of the last place, 2^-52 relative) of the exact value")
+                    label="float From/As within max(1 unit of the last place, 2^-52 relative) of the exact value",
+                    timeout=tmo)
